@@ -49,6 +49,10 @@ func NewGraph(info *types.Info, body *ast.BlockStmt) *Graph {
 		prev := id
 		for _, n := range b.Nodes {
 			nid := len(g.Nodes)
+			// go/cfg appends a synthetic `return` at the closing brace of bodies that fall off their end
+			if rs, ok := n.(*ast.ReturnStmt); ok && len(rs.Results) == 0 && rs.Return == body.End()-1 {
+				n = nil
+			}
 			g.Nodes = append(g.Nodes, n)
 			g.Succ = append(g.Succ, nil)
 			g.Succ[prev] = append(g.Succ[prev], nid)
